@@ -71,7 +71,7 @@ PROPS["C17"] = {
     "assumptions": ["in the @http slices the event fields are read from the JSON the library really put on the wire (its own serialiser, real HTTP on loopback)", "events of spawned threads are awaited through the hook's live-thread counter; their order relative to later calls is not asserted"],
 }
 
-DMG_Q = [("damage", 500), ("signing", 300), ("mixed", 300), ("chaos", 200), ("lifecycle", 150)]
+DMG_Q = [("damage", 500), ("signing", 500), ("mixed", 300), ("chaos", 200), ("lifecycle", 150)]
 DMG_T = [("damage", 8000), ("signing", 6000), ("mixed", 5000), ("chaos", 4000), ("lifecycle", 3000), ("release", 2000)]
 PROPS["C01"] = {
     "modules": ["C01"], "required_theorems": ["C01_holds", "next_boot_patch_sound"], "monitors": ["C01"],
